@@ -979,7 +979,7 @@ impl<F: Read + Write + Seek> CompoundFile<F> {
                 internal::path::path_from_name_chain(&names)
             );
         }
-        minialloc.with_dir_entry_mut(stream_id, |dir_entry| {
+        minialloc.try_with_dir_entry_mut(stream_id, |dir_entry| {
             dir_entry.clsid = clsid;
         })
     }
@@ -1151,7 +1151,7 @@ impl<F: Read + Write + Seek> CompoundFile<F> {
             Some(stream_id) => stream_id,
             None => not_found!("No such object: {:?}", path),
         };
-        self.minialloc_mut().with_dir_entry_mut(stream_id, f)?;
+        self.minialloc_mut().try_with_dir_entry_mut(stream_id, f)?;
         Ok(())
     }
 
